@@ -458,7 +458,7 @@ func runWallet(r *evid.Run, dir string, idx int, cs int64) {
 			// restart: after the resync the production trigger re-offers in a detached goroutine
 			want := unminedSet(f)
 			f.Stop()
-			if err := f.Open(0, true); err != nil {
+			if err := f.Open(f.Window, true); err != nil {
 				if errors.Is(err, wh.ErrNotSynced) {
 					r.Inconclusive("resync watchdog")
 					return
@@ -663,7 +663,7 @@ func main() {
 	r.Rule("complete funded wallets over the fake backend (plus, at the end of half of the wallets, a PublishTransaction with NO backend attached, which must fail and leave no trace); at every broadcast (fresh SendOutputs, a payment to one of the wallet's own addresses, a child sweeping BOTH wallet outputs of such an unconfirmed parent, chained send spending a pending transaction's change at minconf 0, CreateSimpleTx + PublishTransaction, re-publish of a recorded parent that has unconfirmed children) one backend answer class is applied, cycling through all of: accepted, already-in-mempool, already-known, already-confirmed, rejected (generic / insufficient fee / mempool conflict / each of the node's other rejection reasons in chain.RPCErr in turn) and subscription failure at the 1st and at the 2nd NotifyReceived call of the attempt. Oracle per class from a before/after snapshot (balance at 0 and 1 conf, ListUnspent set, unconfirmed set, leases): failed attempts return an error and leave the snapshot identical (and remove every unconfirmed descendant of a re-published parent, releasing its coins); accepted / already-in-mempool record the transaction exactly once, make its inputs unspendable and count the change once; already-known/confirmed return no error. Re-offer: the synchronous verif hook runs the wallet's rebroadcast with three answer policies (accept all / reject the first offered / reject a random one): every unconfirmed transaction that is not a descendant of a rejected one must be offered exactly once, parents before children, and rejected ones (with descendants) must be forgotten; after restarts the production (detached) trigger is judged once no goroutine is left inside the rebroadcast. Non-trivial = every wallet; distinct = distinct attempt logs.")
 	r.Trusted("internal/fakechain", "verif hook wallet.VerifResendUnminedTxs (synchronous call of the unexported method)")
 	r.Assume("already-known / already-confirmed: only 'no error' is asserted (the wallet expects the block notification)", "quiescence of the detached rebroadcast goroutine is decided from goroutine state")
-	dir, _ := os.MkdirTemp("", "c20")
+	dir := r.TempDir("c20")
 	defer os.RemoveAll(dir)
 	r.Parallel("wallet", r.N(27, 540), evid.Workers(), func(i int, cs int64) { runWallet(r, dir, i, cs) })
 	for _, c := range classes {
